@@ -321,6 +321,24 @@ func BinCmp(v ssa.Value) (op token.Token, x, y ssa.Value, ok bool) {
 	}
 	switch b.Op {
 	case token.EQL, token.NEQ, token.LSS, token.LEQ, token.GTR, token.GEQ:
+		// canonical operand order: a constant on the left (`nil == x`, `0 >= d`)
+		// is moved to the right
+		if _, lc := b.X.(*ssa.Const); lc {
+			if _, rc := b.Y.(*ssa.Const); !rc {
+				op := b.Op
+				switch op {
+				case token.LSS:
+					op = token.GTR
+				case token.LEQ:
+					op = token.GEQ
+				case token.GTR:
+					op = token.LSS
+				case token.GEQ:
+					op = token.LEQ
+				}
+				return op, b.Y, b.X, true
+			}
+		}
 		return b.Op, b.X, b.Y, true
 	}
 	return
